@@ -122,6 +122,7 @@ typedef boost::tuple<ComplexType, ComplexType, ComplexType> freq_tuple;
 
 struct World {
     boost::mpi::communicator comm;
+    long group = 0;
     std::unique_ptr<Lattice> L;
     std::unique_ptr<Lattice> Lcopy;
     std::unique_ptr<IndexClassification> IC;
@@ -324,6 +325,23 @@ static std::string exec_line(World*& W, long lineno, const std::string& line) {
     std::string cmd = t.word();
 
     if (cmd == "new") { delete W; W = new World(); J.kvi("ok", 1); return J.done(); }
+    // sub-communicators: "split k" replaces the world communicator of this scenario by world.split(rank % k); "group g <command>" runs the
+    // command only on the ranks of group g (the others answer {"skipped":1}), so that the groups can work on different models concurrently
+    if (cmd == "split") {
+        long k = t.l(); if (k < 1) throw std::runtime_error("runner: bad split");
+        boost::mpi::communicator world;
+        W->group = world.rank() % k;
+        W->comm = world.split(W->group);
+        J.kvi("group", W->group); J.kvi("rank", W->comm.rank()); J.kvi("size", W->comm.size()); return J.done();
+    }
+    if (cmd == "group") {
+        long g = t.l();
+        std::string rest; std::getline(t.is, rest);
+        size_t p0 = rest.find_first_not_of(' ');
+        rest = p0 == std::string::npos ? std::string() : rest.substr(p0);
+        if (g != W->group || rest.empty()) { J.kvi("skipped", 1); return J.done(); }
+        return exec_line(W, lineno, rest);
+    }
     if (cmd == "rank") { J.kvi("rank", W->comm.rank()); J.kvi("size", W->comm.size());
 #ifdef POMEROL_COMPLEX_MATRIX_ELEMENTS
         J.kvi("complex", 1);
